@@ -34,6 +34,7 @@ type gElem struct {
 	token    string   // token reference or literal
 	block    [][]gElem // parenthesised alternatives
 	optional bool      // ? or *
+	repeat   bool      // * or +
 }
 
 type grammar struct {
@@ -216,8 +217,10 @@ func g4Seq(toks []string) ([]gElem, []string, error) {
 		}
 		if len(toks) > 0 && (toks[0] == "?" || toks[0] == "*") {
 			e.optional = true
+			e.repeat = toks[0] == "*"
 			toks = toks[1:]
 		} else if len(toks) > 0 && toks[0] == "+" {
+			e.repeat = true
 			toks = toks[1:]
 		}
 		if len(toks) > 0 && toks[0] == "?" { // non-greedy marker
